@@ -12,6 +12,7 @@ import (
 	"time"
 	_ "time/tzdata" // LoadLocation works without system zoneinfo
 
+	"go.uber.org/zap/zapcore"
 	"pgregory.net/rapid"
 )
 
@@ -50,17 +51,27 @@ var floatSpecials = []float64{
 	math.Float64frombits(0x7ff8000000000001), // NaN with payload
 	math.Float64frombits(0xfff8000000000000), // negative NaN
 	math.Float64frombits(0x000fffffffffffff), // largest subnormal
+	// whole numbers at and around the integer-width boundaries (a formatter
+	// that detours through an integer type overflows exactly here)
+	1 << 63, -(1 << 63), 1 << 64, -(1 << 64), 1 << 62, 1<<63 + 2048, 1<<63 - 1024, -(1<<63 + 2048), 1 << 31, 1 << 32, -(1 << 31), 1<<31 - 1,
+	1e15, 1e16, 1e17, 1e18, 1e19, -1e19, 4.5e18, 100, 1e6, 2.5, 0.5, -0.5, 1e22, 1e23, 255, 256, 65535, 65536, 4294967295, 4294967296,
+	9007199254740993, 1.8446744073709552e19, 3.4028234663852886e38, 3.4028235677973366e38, 1.401298464324817e-45,
 }
 
 func genFloat() *rapid.Generator[float64] {
 	return rapid.OneOf(rapid.Float64(), rapid.SampledFrom(floatSpecials),
-		rapid.Map(rapid.Uint64(), func(b uint64) float64 { return math.Float64frombits(b) }))
+		rapid.Map(rapid.Uint64(), func(b uint64) float64 { return math.Float64frombits(b) }),
+		rapid.Map(genInt64(), func(n int64) float64 { return float64(n) }),       // whole numbers of every magnitude
+		rapid.Map(rapid.IntRange(-80, 80), func(e int) float64 { return math.Ldexp(1, e) }), // powers of two
+		rapid.Map(rapid.IntRange(-30, 30), func(e int) float64 { return math.Pow(10, float64(e)) }))
 }
 
 func genFloat32() *rapid.Generator[float32] {
 	return rapid.OneOf(rapid.Float32(),
 		rapid.Map(rapid.SampledFrom(floatSpecials), func(f float64) float32 { return float32(f) }),
-		rapid.Map(rapid.Uint32(), func(b uint32) float32 { return math.Float32frombits(b) }))
+		rapid.Map(rapid.Uint32(), func(b uint32) float32 { return math.Float32frombits(b) }),
+		rapid.Map(genInt64(), func(n int64) float32 { return float32(n) }),
+		rapid.Map(rapid.IntRange(-80, 80), func(e int) float32 { return float32(math.Ldexp(1, e)) }))
 }
 
 func genComplex() *rapid.Generator[complex128] {
@@ -383,5 +394,121 @@ func genReflect(t *rapid.T, faults bool) (v any, label string) {
 		return math.NaN(), "nanfloat(unencodable)"
 	default:
 		return func() {}, "func(unencodable)"
+	}
+}
+
+// ---- values implementing SEVERAL of the interfaces zap.Any looks for ----
+//
+// The representations deliberately differ (Error() != String() != the
+// marshaled form), so a dispatch that picks another interface is visible.
+
+type objErr struct{ s string }
+
+func (e objErr) Error() string { return "error:" + e.s }
+func (e objErr) MarshalLogObject(enc zapcore.ObjectEncoder) error {
+	enc.AddString("obj", e.s)
+	return nil
+}
+
+type arrErr struct{ s string }
+
+func (e arrErr) Error() string { return "error:" + e.s }
+func (e arrErr) MarshalLogArray(enc zapcore.ArrayEncoder) error {
+	enc.AppendString("arr:" + e.s)
+	return nil
+}
+
+type objStringer struct{ s string }
+
+func (e objStringer) String() string { return "string:" + e.s }
+func (e objStringer) MarshalLogObject(enc zapcore.ObjectEncoder) error {
+	enc.AddString("obj", e.s)
+	return nil
+}
+
+type arrStringer struct{ s string }
+
+func (e arrStringer) String() string { return "string:" + e.s }
+func (e arrStringer) MarshalLogArray(enc zapcore.ArrayEncoder) error {
+	enc.AppendString("arr:" + e.s)
+	return nil
+}
+
+type objArr struct{ s string }
+
+func (e objArr) MarshalLogObject(enc zapcore.ObjectEncoder) error {
+	enc.AddString("obj", e.s)
+	return nil
+}
+func (e objArr) MarshalLogArray(enc zapcore.ArrayEncoder) error {
+	enc.AppendString("arr:" + e.s)
+	return nil
+}
+
+type errStringer struct{ s string }
+
+func (e errStringer) Error() string  { return "error:" + e.s }
+func (e errStringer) String() string { return "string:" + e.s }
+
+type allFour struct{ s string }
+
+func (e allFour) Error() string  { return "error:" + e.s }
+func (e allFour) String() string { return "string:" + e.s }
+func (e allFour) MarshalLogObject(enc zapcore.ObjectEncoder) error {
+	enc.AddString("obj", e.s)
+	return nil
+}
+func (e allFour) MarshalLogArray(enc zapcore.ArrayEncoder) error {
+	enc.AppendString("arr:" + e.s)
+	return nil
+}
+
+// named scalar types with methods: not the built-in type, so Any must go by
+// the interface.
+type strErr string
+
+func (e strErr) Error() string { return "error:" + string(e) }
+
+type durStringer time.Duration
+
+func (d durStringer) String() string { return "string:" + time.Duration(d).String() }
+
+type boolStringer bool
+
+func (b boolStringer) String() string { return "string:bool" }
+
+type intErr int
+
+func (e intErr) Error() string { return fmt.Sprintf("error:%d", int(e)) }
+
+// genMultiIface draws a value implementing more than one (or a surprising one)
+// of ObjectMarshaler / ArrayMarshaler / error / fmt.Stringer, and the name of
+// the representation zap.Any is expected to choose by its documented order
+// (object, array, ..., error, Stringer, reflection).
+func genMultiIface(t *rapid.T) (v any, want string) {
+	s := genStr().Draw(t, "multiVal")
+	switch rapid.IntRange(0, 10).Draw(t, "multiKind") {
+	case 0:
+		return objErr{s}, "object"
+	case 1:
+		return arrErr{s}, "array"
+	case 2:
+		return objStringer{s}, "object"
+	case 3:
+		return arrStringer{s}, "array"
+	case 4:
+		return objArr{s}, "object"
+	case 5:
+		return errStringer{s}, "error"
+	case 6:
+		return allFour{s}, "object"
+	case 7:
+		return strErr(s), "error"
+	case 8:
+		return durStringer(rapid.Int64().Draw(t, "d")), "stringer"
+	case 9:
+		return boolStringer(rapid.Bool().Draw(t, "b")), "stringer"
+	default:
+		return intErr(rapid.Int().Draw(t, "i")), "error"
 	}
 }
